@@ -170,15 +170,28 @@ func dischargeAll(workDir string, obls []*Obligation, timeoutS int) {
 					return
 				}
 				script := o.vc.scriptOpt(o.Upto, o.Path, o.Goal, false, false)
-				if tag == "r" && len(o.Cubes) >= 3 && os.Getenv("GOCV_NOCUBES") == "" {
-					// second attempt: case split over the unit's top-level branch conditions first
-					if r := solveCubes(workDir, fmt.Sprintf("o%04d", i), script, o.Cubes, tmo); r != nil {
+				prev := o.Result
+				if len(o.Cubes) >= 3 && os.Getenv("GOCV_NOCUBES") == "" && !o.NoRetry {
+					// a short race on the whole query; if that does not settle it, a case split over the
+					// unit's top-level branch conditions; only then the long race
+					if tag == "" {
+						short := tmo / 4
+						r0 := solve(workDir, fmt.Sprintf("o%04d", i), script, short)
+						if r0.Status == "unsat" || r0.Status == "sat" {
+							o.Result = r0
+							o.Result.Script = filepath.Join(workDir, fmt.Sprintf("o%04d.smt2", i))
+							return
+						}
+					}
+					if r := solveCubes(workDir, fmt.Sprintf("o%04d%s", i, tag), script, o.Cubes, tmo); r != nil {
 						o.Result = r
 						o.Result.Script = filepath.Join(workDir, fmt.Sprintf("o%04d.smt2", i))
+						if prev != nil {
+							o.Result.Ms += prev.Ms
+						}
 						return
 					}
 				}
-				prev := o.Result
 				t := tmo
 				if o.NoRetry {
 					t = tmo/3 + 1 // a recorded finding: expected not to discharge
